@@ -145,6 +145,14 @@ def run(ctx):
         sp['opts']['price_frame'] = True
         sp['opts']['ops'] = [{'op': 'S', 'g': gi, 'p': 0, 'size': '3h'} for gi in [0, len(gs) - 1, 0] + list(range(1, len(gs) - 1))]
         specs.append(sp)
+    # linked assets (times back / forward given in the main time unit) on grids whose step is not the main time unit, built repeatedly
+    from props.C09 import linked_specs
+    for fq in ('15min', '30min'):
+        for sp in linked_specs(ctx.seed, n // 12, 'c10li%s_' % fq, freq=fq):
+            sp['opts']['grids'] = [sp['grid']]
+            kl = [k_ for k_, a in enumerate(sp['assets']) if a['kind'] == 'LinkedAsset'][0]
+            sp['opts']['ops'] = [{'op': 'P', 'g': 0, 'p': 0}, {'op': 'P', 'g': 0, 'p': 1}, {'op': 'A', 'k': kl, 'g': 0, 'p': 0}, {'op': 'P', 'g': 0, 'p': 0}]
+            specs.append(sp)
     specs = ctx.specs(specs)
     res = C.run_impl('purity', specs)
     for sp, o in zip(specs, res):
